@@ -22,6 +22,10 @@ CLAIMED = {
          "Exploration: between_lengths / between_lengths_by_control / split_open_at_length / split_closed_at_lengths / trim_front / trim_back / reversed on generated open and closed curves with request lengths from a special lattice (0, L, vertex lengths, +-ulp, +-tol/2, +-2tol, same edge, last edge, seam, out of range) and uniform pairs; histories of up to 4 nested operations judged step by step and against the original curve.",
          "Well-posed (travel >= 4 tol, |l1-l0| >= tol) requests must succeed and are judged; ill-posed (out of range, reversed on open, travel < tol) must yield nothing; the band between is not judged. End points within tol+eps, length within 4 tol+eps.",
          "3 / C04"),
+ "C05": ("runtime monitor: arc-position model P(l) + de-duplication model for resampling; segment-distance bound for simplification; definitional check for gap filling",
+         "Exploration: Curve2/Curve3 resample by count / spacing / max spacing, simplify, ramer_douglas_peucker and fill_gaps on generated open and closed curves with total length on both sides of 1.0 and uneven density; the expected sample positions are pushed through the harness's own model of tolerance de-duplication and closure and compared vertex by vertex; requests must succeed whenever they yield at least two representable samples.",
+         "Requests whose sample spacing is below 4x the curve tolerance, or whose de-duplication outcome depends on rounding, are not judged on count/end points (counted as skipped). Max-spacing is judged on uniformity, span and spacing <= max, not on a minimal count.",
+         "3 / C05"),
 }
 
 def main():
